@@ -23,4 +23,4 @@ if [ "$bin" = c01 ]; then
     echo "BUILD-FAILED (scratch) property=$id sub-run c01old"; tail -40 "$sc/build.log"; exit 2
   fi
 fi
-VERIF_ROOT="$sc" "$sc/target/verif/$bin" "$@"
+VERIF_ROOT="$sc" VERIF_REPO="$wt" "$sc/target/verif/$bin" "$@"
